@@ -97,7 +97,8 @@ claim("C06",
 claim("C03",
       "W1: in the pipeline world a synchronous create_checkpoint returns (and its waiter is woken without error) only after the API call carrying its update "
       "returned and every page of the response was merged into state.operations - for every batch boundary, inline/paginated response, failing call 1/2/none "
-      "and one solver-chosen preemption. W2: for every handler kind and every reachable record, process() leaves by return/final error/suspension only when "
+      "and one solver-chosen preemption; W1b: the same for a step update that is queued, in flight or not yet handed over when the completion of its parent "
+      "context is handed over by another thread (it is either delivered before its caller returns, or rejected as orphaned - never released unrecorded). W2: for every handler kind and every reachable record, process() leaves by return/final error/suspension only when "
       "the justifying record (terminal, START of wait/invoke/callback, RETRY) was handed over synchronously in this run or pre-existed.",
       "as C05 for W1; FakeState + backend contract for W2; wrapper-level W3 (oversized final result) is decided under C16/C18",
       "CrossHair symbolic execution (z3): coroutine-lowered real batcher under a solver-driven scheduler + real operation executors over arbitrary records",
